@@ -170,6 +170,30 @@ def factory_pure(ctx, res, only):
             res.violation(f"{name}:{':'.join(k)}", loc, msg, path)
         if not hits:
             res.oblige(True, name, "", "")
+        # totality: every entry of a delta part is carried over - nothing in
+        # the factory (or a private helper it uses) is conditional on the
+        # *values* (an entry re-assigned the identical object is still a
+        # `changed` entry: dropping it gives observers an empty event)
+        fni = repo.inlined(rel, name)
+        for lp in [n for n in ast.walk(fni) if isinstance(n, ast.For)]:
+            skips = [x for x in ast.walk(lp) if isinstance(
+                x, (ast.If, ast.Continue, ast.Break, ast.IfExp))]
+            src = {n_.id for n_ in ast.walk(lp.iter) if isinstance(n_, ast.Name)}
+            if src & set(fl.params):
+                res.oblige(not skips, f"{name}:total", mod.loc(
+                    skips[0] if skips else lp),
+                    f"{name} treats the entries of `{norm(lp.iter)[:40]}` "
+                    f"conditionally: some of them do not reach the event "
+                    f"although the container reported them")
+        for comp in [n for n in ast.walk(fni) if isinstance(
+                n, (ast.DictComp, ast.ListComp, ast.SetComp, ast.GeneratorExp))]:
+            for gen in comp.generators:
+                src = {n_.id for n_ in ast.walk(gen.iter)
+                       if isinstance(n_, ast.Name)}
+                if src & set(fl.params):
+                    res.oblige(not gen.ifs, f"{name}:total", mod.loc(comp),
+                               f"{name} filters the entries of "
+                               f"`{norm(gen.iter)[:40]}`")
         # roles
         for ret in [n for n in ast.walk(fn) if isinstance(n, ast.Return)]:
             call = ret.value
@@ -962,6 +986,32 @@ def _notify_snapshot_rule(kind):
         if not loops:
             raise AnalysisError(f"{base.name}.notify: dispatch loop not "
                                 f"found")
+        # the dispatch loop is reached on every call: no early exit and no
+        # enclosing condition (a "re-entrancy guard" that returns silently
+        # drops the notification of a change made from inside a notifier)
+        early = [r for r in ast.walk(fn) if isinstance(r, (ast.Return,))
+                 and r.lineno < min(getattr(l, "lineno", 10**9) for l in loops
+                                    if hasattr(l, "lineno"))] \
+            if any(hasattr(l, "lineno") for l in loops) else []
+        par_ = {}
+        for p_ in ast.walk(fn):
+            for c_ in ast.iter_child_nodes(p_):
+                par_[id(c_)] = p_
+        enclosed = []
+        for l in loops:
+            x = par_.get(id(l))
+            while x is not None and x is not fn:
+                if isinstance(x, (ast.If, ast.While)):
+                    enclosed.append(x)
+                x = par_.get(id(x))
+        res.oblige(not early and not enclosed,
+                   f"{base.name}.notify:dispatch-always", mod.loc(
+                       (early or enclosed or [fn])[0]),
+                   f"{base.name}.notify can leave without dispatching (an "
+                   f"early return or a condition around the loop): a change "
+                   f"made while a notification is being delivered - or "
+                   f"whatever the condition excludes - alters the contents "
+                   f"with no event at all")
         for lp in loops:
             # every notifier of the snapshot is called: the call of the loop
             # variable is not nested in a condition
@@ -1104,3 +1154,120 @@ def delta_accumulation(ctx, res):
         if ok:
             res.oblige(True, key, "", "")
     res.floor(1)
+
+
+# ---------------------------------------------------------------------------
+# C04.object-layer: the trait-bound subclasses go through the validating layer
+
+@rule("C04.object-layer", ["C04", "C05", "C06", "C07"],
+      "Trait{List,Dict,Set}Object (the objects stored in List/Dict/Set "
+      "traits) never call a built-in mutator directly - only the "
+      "Trait{List,Dict,Set} base layer, which validates and notifies, does - "
+      "and their overrides of a mutator pass the caller's arguments on "
+      "unchanged")
+def object_layer(ctx, res):
+    from .containers import MUTATORS, container_classes
+    repo, classes = container_classes(ctx)
+    n = 0
+    for kind, (mod, base, obj) in classes.items():
+        muts = set(MUTATORS[kind]) | {"__init__"}
+        for mname, fn in sorted(obj.methods.items()):
+            if fn is None:
+                continue
+            key = f"{obj.name}.{mname}"
+            selfn = fn.args.args[0].arg if fn.args.args else "self"
+            bad = []
+            for c in ast.walk(fn):
+                if not isinstance(c, ast.Call):
+                    continue
+                f = c.func
+                # list.extend(self, ...), dict.update(self, ...)
+                if isinstance(f, ast.Attribute) and isinstance(f.value, ast.Name) \
+                        and f.value.id == kind and f.attr in muts and c.args \
+                        and norm(c.args[0]) == selfn:
+                    bad.append((c, f"{kind}.{f.attr}({selfn}, ...)"))
+                # super(TraitList, self).extend(...)
+                if isinstance(f, ast.Attribute) and isinstance(f.value, ast.Call) \
+                        and norm(f.value.func) == "super" and f.value.args \
+                        and norm(f.value.args[0]) == base.name \
+                        and f.attr in muts:
+                    bad.append((c, f"super({base.name}, {selfn}).{f.attr}(...)"))
+            if mname in muts or bad:
+                n += 1
+                res.instance(key, mod.loc(fn))
+            for c, what in bad:
+                res.violation(f"{key}:bypasses-validating-layer", mod.loc(c),
+                              f"{key} calls `{what}`: the items stored by "
+                              f"that call are not validated by the trait "
+                              f"(and nobody is notified)")
+            if mname not in MUTATORS[kind]:
+                if mname in muts and not bad:
+                    res.oblige(True, key, "", "")
+                continue
+            # pass-through of the caller's arguments
+            params = [a.arg for a in fn.args.args][1:]
+            rebound = {}
+            for a in ast.walk(fn):
+                tg = []
+                if isinstance(a, ast.Assign):
+                    tg = a.targets
+                elif isinstance(a, (ast.AugAssign, ast.AnnAssign)):
+                    tg = [a.target]
+                for t in tg:
+                    for nm in ast.walk(t):
+                        if isinstance(nm, ast.Name) and nm.id in params \
+                                and isinstance(nm.ctx, ast.Store):
+                            rebound.setdefault(nm.id, []).append(a)
+            ok = not bad
+            for c in ast.walk(fn):
+                if isinstance(c, ast.Call) and isinstance(c.func, ast.Attribute) \
+                        and isinstance(c.func.value, ast.Call) \
+                        and norm(c.func.value.func) == "super" \
+                        and not c.func.value.args and c.func.attr == mname:
+                    for i, a in enumerate(c.args):
+                        if isinstance(a, ast.Starred):
+                            a = a.value
+                        # a local that materialises the parameter
+                        # (`items = list(iterable)`) stands for it
+                        if isinstance(a, ast.Name) and a.id not in params:
+                            defs_ = [x.value for x in ast.walk(fn)
+                                     if isinstance(x, ast.Assign)
+                                     and len(x.targets) == 1
+                                     and isinstance(x.targets[0], ast.Name)
+                                     and x.targets[0].id == a.id]
+                            if len(defs_) == 1 and isinstance(defs_[0], ast.Call) \
+                                    and norm(defs_[0].func) in ("list", "tuple") \
+                                    and len(defs_[0].args) == 1 \
+                                    and isinstance(defs_[0].args[0], ast.Name) \
+                                    and i < len(params) \
+                                    and defs_[0].args[0].id == params[i]:
+                                a = defs_[0].args[0]
+                        if not (isinstance(a, ast.Name) and i < len(params)
+                                and a.id == params[i]):
+                            ok = False
+                            res.violation(f"{key}:passthrough:{i}", mod.loc(c),
+                                          f"{key} hands `{norm(a)[:40]}` to "
+                                          f"{base.name}.{mname} where the "
+                                          f"caller passed `"
+                                          f"{params[i] if i < len(params) else '?'}`")
+                            continue
+                        for rb in rebound.get(a.id, []):
+                            v = getattr(rb, "value", None)
+                            materialise = isinstance(v, ast.Call) and norm(
+                                v.func) in ("list", "tuple", "set", "dict") \
+                                and len(v.args) == 1 and norm(v.args[0]) == a.id
+                            if not materialise and rb.lineno < c.lineno:
+                                ok = False
+                                res.violation(
+                                    f"{key}:passthrough:{a.id}:rebound",
+                                    mod.loc(rb),
+                                    f"{key} re-binds its argument `{a.id}` "
+                                    f"(`{norm(rb)[:50]}`) before handing it "
+                                    f"to {base.name}.{mname}: the operation "
+                                    f"performed is no longer the one the "
+                                    f"caller asked for (a slice rebuilt from "
+                                    f"slice.indices() selects different "
+                                    f"items for a negative step)")
+            if ok:
+                res.oblige(True, key, "", "")
+    res.floor(12)
